@@ -249,13 +249,8 @@ def eval_case(case):
     out = Outcome()
     d = scratch_dir()
     fa = os.path.join(d, 'ref_%d.fa' % os.getpid())
-    with open(fa, 'w') as f:
-        for i, r in enumerate(case['refs']):
-            f.write('>ctg%d\n%s\n' % (i, r))
-    for ext in ('.fai',):
-        if os.path.exists(fa + ext):
-            os.remove(fa + ext)
-    pysam.faidx(fa)
+    from ..common.fragsim import write_fasta
+    write_fasta(fa, [('ctg%d' % i, r) for i, r in enumerate(case['refs'])])
     contigs = [('ctg%d' % i, len(r)) for i, r in enumerate(case['refs'])]
     h = header(contigs)
     taps = TAPS()
